@@ -16,6 +16,8 @@ From Clip Require model.PathUtils proofs.PathUtilsBase proofs.PathUtilsInst proo
 From Clip Require model.RectLeaf model.RectLines proofs.RectLines.
 From Clip Require model.Export proofs.Export.
 From Clip Require model.OffsetGeom proofs.OffsetGeomProofs.
+From Clip Require model.Owner proofs.Owner.
+From Clip Require model.Minkowski proofs.Minkowski.
 Import ListNotations.
 Local Open Scope Z_scope.
 
@@ -241,3 +243,33 @@ Theorem C10_offset_joined_empty_path_refuted :
   forallb (OffsetGeom.in_bounds 0) (OffsetGeom.open_joined_accesses 0) = false.
 Proof. exact SafetyC10.offset_joined_empty_out_of_bounds. Qed.
 Print Assumptions C10_offset_joined_empty_path_refuted.
+
+(* ================================================================== (c) owner-chain loops (model and proofs of C04) *)
+
+(* GetRealOutRec / IsValidOwner / SetOwner walk `owner` pointers with no bound.  In the model (fuel = number of OutRecs + 1)
+   none of them runs out of fuel on an acyclic, in-range owner map ... *)
+Theorem C10_owner_loops_terminate :
+  forall m : Owner.omap, Owner.acyclic m -> (forall i o, Owner.owner_of m i = Some o -> (o < length m)%nat) ->
+  forall i j : nat,
+    (exists r, Owner.get_real (Owner.fuel_of m) m (Some i) = Some r) /\
+    (exists b, Owner.is_valid_owner (Owner.fuel_of m) m i j = Some b) /\
+    (i <> j -> (j < length m)%nat -> exists m', Owner.set_owner (Owner.fuel_of m) m i j = Some m').
+Proof. exact proofs.Owner.owner_loops_terminate. Qed.
+Print Assumptions C10_owner_loops_terminate.
+
+(* ... and every sequence of the engine's owner operations whose call-site conditions hold keeps the map such a forest *)
+Theorem C10_owner_forest :
+  forall ops, proofs.Owner.run_ok [] ops ->
+    exists m, Owner.run_ops [] ops = Some m /\ Owner.acyclic m /\
+      (forall i o, Owner.owner_of m i = Some o -> (o < length m)%nat).
+Proof. exact proofs.Owner.owner_forest. Qed.
+Print Assumptions C10_owner_forest.
+
+(* ================================================================== detail::Minkowski (model and proofs of C19) *)
+
+(* the index arithmetic of detail::Minkowski (`tmp[g][h]`, h carried across iterations) and of Area: the bounds-checked,
+   fuelled model never reports MOob / MFuel, for every pattern and path (empty ones included) *)
+Theorem C10_minkowski_in_bounds :
+  forall (pat pth : path) (s c : bool), exists quads, Minkowski.minkowski pat pth s c = Minkowski.MOk quads.
+Proof. exact proofs.Minkowski.minkowski_no_error. Qed.
+Print Assumptions C10_minkowski_in_bounds.
